@@ -24,6 +24,13 @@ def e2e(term, ty, n_threads, length, c, avail):
                           tag=f"max{n_threads}_ap{avail}")
 
 
+def e2e_collect(term, ty, n_threads, length, c, avail, owners, counts, obs):
+    """spawn loops of Runner::run (map-only collect) and Runner::run_map (filtering collects, collect_x)"""
+    post = SPAWN.format(n=n_threads) + f"    kani::cover!(model::max_spawns() >= 1);\n"
+    return collect_harness("c08", term, ty, "slice", length, n_threads, c, owners, counts, obs=obs, extra_post=post,
+                           available=avail, tag=f"max{n_threads}_ap{avail}_obs{obs}")
+
+
 def seq(term, ty, src="slice", ops=None):
     p = Pipeline(src, ops if ops is not None else chain_for(ty))
     n = 3
@@ -54,6 +61,12 @@ def harnesses(tier, seed):
         hs.append(e2e("count", "MF", 3, 4, 1, 4))
         hs.append(e2e("find", "FMF", 2, 4, 2, 4))
         hs.append(e2e("reduce_xor", "FLF", 2, 3, 1, 4))
+        # the other two spawn loops; lazy observations = the spawner keeps seeing an undrained source
+        hs.append(e2e_collect("collect_vec", "M", 2, 3, 1, 4, [1, 0, 1], (1, 1, 1), 1))
+        hs.append(e2e_collect("collect_vec", "MF", 2, 3, 1, 4, [1, 0, 1], (1, 0, 1), 1))
+        hs.append(e2e_collect("collect_vec", "FMF", 3, 3, 1, 4, [2, 0, 1], (1, 1, 1), 1))
+        hs.append(e2e_collect("collect_x", "MF", 2, 3, 1, 4, [0, 1, 0], (1, 1, 1), 1))
+        hs.append(e2e_collect("collect_vec", "FLF", 2, 2, 1, 4, [1, 0], (1, 2), 2))
         for term, ty in (("count", "MF"), ("reduce_xor", "FMF"), ("find", "FLF"), ("collect_vec", "M"), ("collect_vec", "MF"),
                          ("collect_x", "MF"), ("for_each", "M"), ("collect_into", "FMF")):
             hs.append(seq(term, ty))
@@ -66,6 +79,13 @@ def harnesses(tier, seed):
                 for c in (1, 2):
                     hs.append(e2e(term, ty, nt, 4, c, 4))
         hs.append(e2e("count", "MF", 6, 6, 1, 8))
+        for ty, cv in (("M", (1, 1, 1)), ("MF", (1, 0, 1)), ("FMF", (0, 1, 1)), ("FLF", (1, 2, 0))):
+            for nt in (2, 3):
+                for obs in (1, 2):
+                    for term in ("collect_vec", "collect_x"):
+                        if term == "collect_x" and ty == "FLF":
+                            continue
+                        hs.append(e2e_collect(term, ty, nt, 3, 1, 4, [o % nt for o in (1, 0, 2)], cv, obs))
         for ty in ("E", "M", "F", "MF", "FM", "FMF", "FL", "FLF"):
             for term in ("count", "reduce_xor", "find", "first", "any", "all", "collect_vec", "collect", "collect_x", "for_each",
                          "collect_into", "min", "sum"):
